@@ -1,5 +1,7 @@
 (* Props/C15.v -- property theorems only.  Model: Model/Heap.v (term objects shared by reference, compile in place,
-   fit record on the model), tied to pygam.py / terms.py by harness/props/c15.py (random call histories). *)
+   fit record on the model), tied to pygam.py / terms.py by harness/props/c15.py (random call histories).
+   State of /repo modelled: after "fix: a spline term kept the knots of the first data set it was compiled on" and
+   "fix: gridsearch(keep_best=True) left the model sharing objects with a returned candidate". *)
 From Coq Require Import List ZArith Bool Arith.
 From PG Require Import Model.Heap Proofs.C15.
 Import ListNotations.
@@ -12,20 +14,32 @@ Theorem C15_queries_pure :
 Proof. exact (conj step_query run_queries). Qed.
 Print Assumptions C15_queries_pure.
 
-(* if no spline term of the model carries knots (from an earlier fit of this or another model, or from the constructor),
-   fit(d) gives exactly the fit record of a fresh model fitted on d -- whatever else happened on the heap before *)
-Theorem C15_fit_fresh_equiv : forall h m d, m < length (h_models h) -> clean h (m_terms (get_m h m)) ->
-  m_fit (get_m (step (Fit m d) h) m) = fresh_fit d (m_terms (get_m h m)) /\
-  m_terms (get_m (step (Fit m d) h) m) = m_terms (get_m h m).
-Proof. exact fit_fresh. Qed.
-Print Assumptions C15_fit_fresh_equiv.
-
-Example C15_fit_fresh_equiv_nonvacuous :
-  let h := run [NewTerm KSpline false; NewTerm KFactor false; NewModel [0; 1]; NewModel [1]; Fit 1 3] empty in
-  0 < length (h_models h) /\ clean h (m_terms (get_m h 0)).
+(* the outcome of fit(d) -- the fit record and the state of the model's term objects right after the fit -- is that of a fresh
+   model (fresh term objects with the same constructor settings, user-given knots included) fitted on d: for EVERY heap, i.e.
+   whatever was fitted, copied, searched or shared before *)
+Theorem C15_fit_history_independent :
+  (forall h m d, m < length (h_models h) -> valid_ids h (m_terms (get_m h m)) ->
+     let h' := step (Fit m d) h in
+     m_fit (get_m h' m) = fresh_fit h d (m_terms (get_m h m)) /\
+     m_terms (get_m h' m) = m_terms (get_m h m) /\
+     knots_of (h_terms h') (m_terms (get_m h' m)) = map (fun i => t_knots (compile_t d (fresh_term (get_t h i)))) (m_terms (get_m h m))) /\
+  (forall ops m d, let h := run ops empty in m < length (h_models h) -> valid_ids h (m_terms (get_m h m)) ->
+     m_fit (get_m (run (ops ++ [Fit m d]) empty) m) = fresh_fit h d (m_terms (get_m h m))).
 Proof.
-  cbv zeta. split; [vm_compute; auto |]. intros i Hi. vm_compute in Hi.
-  destruct Hi as [<- | [<- | []]]; vm_compute; split; auto; discriminate.
+  split; [exact fit_fresh |]. intros ops m d h Hm Hv. unfold run. rewrite fold_left_app. simpl.
+  exact (proj1 (fit_fresh (fold_left (fun h0 o => step o h0) ops empty) m d Hm Hv)).
+Qed.
+Print Assumptions C15_fit_history_independent.
+
+(* the former refit witness (fit on data 1, then on data 2) now gives the fresh outcome, and the hypotheses are satisfiable *)
+Example C15_fit_history_independent_nonvacuous :
+  let ops := [NewTerm KSpline false; NewTerm KFactor false; NewTerm KSpline true; NewModel [0; 1; 2]; NewModel [1]; Fit 1 3; Fit 0 1] in
+  let h := run ops empty in
+  0 < length (h_models h) /\ valid_ids h (m_terms (get_m h 0)) /\
+  m_fit (get_m (run (ops ++ [Fit 0 2]) empty) 0) = Some (2, [Some 2; Some 2; Some 0]).
+Proof.
+  cbv zeta. split; [vm_compute; auto |]. split; [| reflexivity]. intros i Hi. vm_compute in Hi.
+  destruct Hi as [<- | [<- | [<- | []]]]; vm_compute; auto.
 Qed.
 
 (* fitting one model does not change what determines another model's predictions -- PROVIDED they share no term object *)
@@ -35,21 +49,16 @@ Theorem C15_fit_isolated_partial : forall h m m' d, m <> m' ->
 Proof. exact fit_isolated. Qed.
 Print Assumptions C15_fit_isolated_partial.
 
-(* full history independence is false: (a) a model fitted on data 1 and then on data 2 keeps the knots of data 1 *)
-Theorem C15_fit_history_independent_refuted_refit :
-  exists ops m d, m_fit (get_m (run (ops ++ [Fit m d]) empty) m) <> fresh_fit d (m_terms (get_m (run ops empty) m)).
-Proof. exists hist_refit, 0, 2. vm_compute. discriminate. Qed.
-Print Assumptions C15_fit_history_independent_refuted_refit.
-
-(* (b) two models built from one term expression share the term objects, hence the knots of whichever was fitted first *)
-Theorem C15_fit_history_independent_refuted_shared :
-  exists ops m d, m_fit (get_m (run ops empty) m) = None /\
-                  m_fit (get_m (run (ops ++ [Fit m d]) empty) m) <> fresh_fit d (m_terms (get_m (run ops empty) m)).
-Proof. exists hist_shared, 1, 2. split; [reflexivity | vm_compute; discriminate]. Qed.
-Print Assumptions C15_fit_history_independent_refuted_shared.
-
-(* (c) fitting one model changes another model's predictions: a shared factor (or linear) term is overwritten in place *)
-Theorem C15_fit_isolated_refuted :
+(* without the proviso it is false: two models built from one term expression share the term objects, and the second model's fit
+   recompiles them in place -- spline, factor and linear terms alike *)
+Theorem C15_fit_isolated_refuted : forall k : tkind,
   exists ops m m' d, m <> m' /\ obs (run (ops ++ [Fit m d]) empty) m' <> obs (run ops empty) m'.
-Proof. exists hist_shared_factor, 1, 0, 2. split; [discriminate | vm_compute; discriminate]. Qed.
+Proof. intros k. exists (hist_shared k), 1, 0, 2. split; [discriminate | vm_compute; discriminate]. Qed.
 Print Assumptions C15_fit_isolated_refuted.
+
+(* gridsearch(keep_best=True) leaves the model with term objects of its own: all new, so shared with no other model, with no
+   returned candidate and with nothing the caller holds *)
+Theorem C15_keep_best_unshared : forall h m d self_best, m < length (h_models h) ->
+  forall i, In i (m_terms (get_m (step (GridsearchKeep m d self_best) h) m)) -> length (h_terms h) <= i.
+Proof. exact keep_best_fresh_objects. Qed.
+Print Assumptions C15_keep_best_unshared.
